@@ -77,7 +77,14 @@ def run(prog, ctx):
             a, b = render(lit.lhs), render(lit.rhs)
             for x, y in ((a, b), (b, a)):
                 if x in ("*" + name, name + "[0]") and y.startswith(comment_param + "["):
-                    return "good"
+                    idx = None
+                    for yn in (lit.lhs, lit.rhs):
+                        ys = yn.strip()
+                        if ys.k == "ArraySubscriptExpr":
+                            idx = ys.children[1].const_value()
+                    return "first-only" if idx is not None else "good"
+                if x in ("*" + name, name + "[0]") and (y.endswith("->comment") or y == "*" + comment_param):
+                    return "first-only"
                 if x in ("*" + L.linebuf, L.linebuf + "[0]") and y.startswith(comment_param + "["):
                     return "raw"
             # pointer equality p == name with p from a search routine
@@ -119,6 +126,13 @@ def run(prog, ctx):
                 ctx.fail("K1", "comment line recognised by its first non-blank character", w,
                          "the comment test looks at the unstripped buffer `%s`: an indented comment line is not recognised" % L.linebuf,
                          key="raw-buffer")
+        elif any(k == "first-only" for k, _ in kinds):
+            w = [wh for k, wh in kinds if k == "first-only"][0]
+            if "first-only" not in seen_k1:
+                seen_k1.add("first-only")
+                ctx.fail("K1", "comment line recognised by its first non-blank character", w,
+                         "only ONE comment character (the first of the set) is tested: with a set like \"#;\" a line starting with ';' is not a comment line",
+                         key="first-char-only")
         elif any(k == "first-occurrence" for k, _ in kinds):
             ctx.inconclusive("K1", inst, st.where, "guard compares the first occurrence pointer with the line start; idiom not armed")
         else:
@@ -172,4 +186,28 @@ def run(prog, ctx):
                          what, ": the only exit is an emptiness test of the UNSTRIPPED buffer `%s`, which an indented comment line "
                          "survives (it is then appended to the previous value)" % L.linebuf if raw else ""),
                      key=key, path=cfg.describe_path(wp))
+    # ---- K3 completeness: nothing is stored / no error raised for a line unless the comment test said "no" ---------
+    def not_comment(lit, b, i):
+        if lit is None:
+            return False
+        if classify(lit.negated()) == "good":
+            return True                       # membership test false
+        return lit.kind == "truth" and not lit.pol and lit.atom in ("*" + name, name + "[0]")   # empty after stripping blanks
+    missed = None
+    for what, n in sink_nodes:
+        nb = cfg.block_of(n)
+        ok, cut = cfg.all_paths_cut(nb, not_comment, start=L.header)
+        if not ok:
+            wp = cfg.witness_path(nb, avoid_edges=cut, start=L.header)
+            missed = (what, n, wp)
+            break
+    if missed is None:
+        ctx.ok("K3", "every line is tested for being a comment line before anything is stored", f.where,
+               "all %d store / section / error sites are reachable only through the 'not a comment character' edge" % len(sink_nodes))
+    else:
+        what, n, wp = missed
+        ctx.fail("K3", "every line is tested for being a comment line before anything is stored", n.where,
+                 "%s is reachable in an iteration without the comment test having said 'no': under that condition a line whose first "
+                 "non-blank character is a comment character is treated as data (e.g. appended to the previous value)" % what,
+                 key="comment-test-bypassed", path=cfg.describe_path(wp)[-8:])
     ctx.floor("C05 statements recording a before-key comment", len(recs), 1)
